@@ -54,18 +54,22 @@ def numCmp : Num → Num → Option Ordering
 
 def inRanges (rs : List (Nat × Nat)) (c : Char) : Bool := rs.any (fun r => r.1 ≤ c.toNat && c.toNat ≤ r.2)
 
-/-- U+001C..U+001F: `str.strip()` removes them, `int()` / `float()` do not (their ASCII path only skips C `isspace`).
-`Py.pyInt?` / `Py.pyFloatBits?` strip with `isPySpace` and so accept `"1\x1c"`, which CPython rejects (reported to the
-owner of the shared base); no valid number contains these characters, so rejecting them here is exact. -/
-def hasSepCtl (s : Str) : Bool := s.any (fun c => 0x1c ≤ c.toNat && c.toNat ≤ 0x1f)
+/-- `float(n)` for a Python int as a bit pattern; `none` = OverflowError -/
+def intToFloatBits (n : Int) : Option Nat :=
+  let mag := roundToDoubleBits n.natAbs 1
+  if mag ≥ 0x7FF0000000000000 then none
+  else some (if n < 0 then mag + 2 ^ 63 else mag)
 
-def cpyInt (s : Str) : Option Int := if hasSepCtl s then none else pyInt? s
-def cpyFloat (s : Str) : Option Nat := if hasSepCtl s then none else pyFloatBits? s
+/-- `Timestamp.__float__`: `float(self.sec) + float(self.nsec) / 1e9` -/
+def tsFloatBits (sec nsec : Int) : Option Nat :=
+  match intToFloatBits sec, intToFloatBits nsec with
+  | some a, some b => some (fOf a + fOf b / 1000000000.0).toBits.toNat
+  | _, _ => none
 
 /-- CPython's numbers and `re` classes -/
 def cpython (legacy : Bool) : Params where
-  pyInt := cpyInt
-  pyFloat := cpyFloat
+  pyInt := pyInt?
+  pyFloat := pyFloatBits?
   lt a b := numCmp a b == some .lt
   le a b := numCmp a b == some .lt || numCmp a b == some .eq
   eq a b := numCmp a b == some .eq
@@ -74,6 +78,7 @@ def cpython (legacy : Bool) : Params where
   isPosInf b := b == 0x7FF0000000000000
   isInteger b := (fOf b).isFinite && (fOf b).floor == fOf b
   intTooBig n := n.natAbs ≥ 2 ^ 1024 - 2 ^ 970
+  tsFloat := tsFloatBits
   reW := inRanges reWordRanges
   reS := inRanges reSpaceRanges
   reD := inRanges reDigitRanges
